@@ -1006,7 +1006,7 @@ pub fn run(cfg: &Cfg) -> i32 {
     }
 
     // F1 adversarial alphabet
-    let sigma: Vec<char> = vec![' ', '\n', '\t', '\r', '"', '\\', '(', ')', '|', 'x', '.', '0', '1', '9', 'a', 'f', 'g', '-', '+', '_', 'b', 'e', 'é', '\u{201c}', '\u{201d}', '😀', '\u{a0}'];
+    let sigma: Vec<char> = vec![' ', '\n', '\t', '\r', '\x0c', '\x0b', '"', '\\', '(', ')', '|', 'x', '.', '0', '1', '9', 'a', 'f', 'g', '-', '+', '_', 'b', 'e', 'é', '\u{201c}', '\u{201d}', '😀', '\u{a0}'];
     let l1 = envn("VERIF_C16_L", if quick { 5 } else { 6 });
     let t0 = std::time::Instant::now();
     let n = sweep(cfg, "F1-adversarial", &nop, &sigma, l1, &all, &rep, &tot);
